@@ -173,6 +173,36 @@ func (p c13) Gen(r *simhook.Rand, tier string, idx int) harness.Scenario {
 		sc.DenseFuncs = []string{"(*compressFilter).decompress"}
 		return sc
 	}
+	if r.Chance(1, 14) {
+		// class "header-like-sibling": one field of a hash holds a short value that merely begins like a compressed one
+		// (stored verbatim, below the threshold; what is read back for THAT value is outside the property), the other
+		// fields hold values that are stored compressed.  Array replies carry both: the genuine ones must read back right.
+		sc.Class = "header-like-sibling"
+		sc.Env.Masters = 1 + r.Intn(2)
+		sc.Env.Compression.Threshold = 64
+		cs := ConnScript{Name: "c0"}
+		hk := "c0:hl:h"
+		odd := []string{"(P$9.99 per unit) special offer", "(P$\x00\r\nnot a stream at all", "(P$\x00\r\n\xff\x06\x00\x00sNaPpY garbage", "(P$$$ money"}[r.Intn(4)]
+		a := world.Bins("HMSET", hk, "f0", odd)
+		for i := 1; i < 2+r.Intn(3); i++ {
+			a = append(a, world.Bin(fmt.Sprintf("f%d", i)), world.Bin(strings.Repeat(fmt.Sprintf("genuine value %d ", i), 8+r.Intn(8))))
+		}
+		cs.Reqs = append(cs.Reqs, world.Request{Args: a, Wait: true})
+		for i := 0; i < 3+r.Intn(4); i++ {
+			switch r.Intn(4) {
+			case 0:
+				cs.Reqs = append(cs.Reqs, world.Request{Args: world.Bins("HMGET", hk, "f0", "f1", "f2", "f3"), Wait: true})
+			case 1:
+				cs.Reqs = append(cs.Reqs, world.Request{Args: world.Bins("HVALS", hk), Wait: true})
+			case 2:
+				cs.Reqs = append(cs.Reqs, world.Request{Args: world.Bins("HGETALL", hk), Wait: true})
+			default:
+				cs.Reqs = append(cs.Reqs, world.Request{Args: world.Bins("HGET", hk, "f1"), Wait: true})
+			}
+		}
+		sc.Conns = []ConnScript{cs}
+		return sc
+	}
 	toggles := r.Chance(1, 4)
 	if toggles {
 		sc.Class = "toggle"
@@ -422,6 +452,11 @@ func (p c13) Run(t *testing.T, s harness.Scenario) harness.Outcome {
 		// what the backends hold: the original bytes, or the documented header + a stream that expands to the
 		// original and is shorter than the original; below the threshold always the original
 		check := func(where string, stored, model []byte) *simrtViolation {
+			if bytes.HasPrefix(model, []byte("(P$")) {
+				// the client itself wrote a value that begins like a compressed one (class header-like-sibling): the
+				// property makes no statement about such a value
+				return nil
+			}
 			orig, comp, err := decodeStored(stored)
 			if err != nil {
 				return &simrtViolation{Clause: "stored-form-legal", Detail: fmt.Sprintf("%s: %v; stored %d bytes %q", where, err, len(stored), trunc(stored, 40))}
